@@ -400,8 +400,8 @@ def human_readable_size(x):
         return "0"
     magnitude = int(math.log(abs(x), 10.24))
     if magnitude > 16:
-        format_str = "%iP"
-        # denominator_mag = 15
+        # integer division, so sizes beyond the range of a float can be displayed as well
+        return "%iPB" % (x // 1024**5)
     else:
         float_fmt = "%2.1f" if magnitude % 3 == 1 else "%1.2f"
         illion = (magnitude + 1) // 3
